@@ -38,7 +38,7 @@ def plan(tier: str, seed: int) -> list[dict[str, Any]]:
               "compile": i % (8 if tier == "thorough" else 20) == 0}
              for i in range(N_PROGRAMS[tier])]
     n = common.NCPU * (1 if tier == "quick" else 4)
-    return [{"cases": c} for c in common.split_even(cases, n)]
+    return [{"cases": c, "idx": i} for i, c in enumerate(common.split_even(cases, n))]
 
 
 def evaluate(g: Any, env: dict[str, Any]) -> dict[str, np.ndarray]:
@@ -120,6 +120,8 @@ def check_case(case: dict[str, Any], col: common.Collector) -> None:
     spec = case.get("spec")
     if spec is None:
         spec = proggen.generate(case["seed"], "distrib", n_nodes=case["n_nodes"], opts=OPTS)
+    if case.get("directed"):
+        col.count("mon.directed")
     vset = 0
     ref = spread = None
     try:
@@ -302,8 +304,49 @@ def check_case(case: dict[str, Any], col: common.Collector) -> None:
               "rewritten": n_rewritten})
 
 
+def directed() -> list[dict[str, Any]]:
+    """Hand-written expressions aimed at the clause 'an operation is pushed through an
+    einsum only if that is an algebraic identity': non-linear or non-commuting operations
+    directly under a distributed operand, every policy enumerated."""
+    def ph(i: int, shape: list[int], dt: str, pool: str = "dyadic") -> dict[str, Any]:
+        return {"id": i, "kind": "ph", "shape": shape, "dtype": dt, "pool": pool,
+                "name": f"x{i}"}
+    out = []
+    leaf_ops: list[tuple[str, list[Any], str]] = []
+    for dt in ("float64", "float32", "int32", "bool", "complex128"):
+        k = {"float64": "float", "float32": "float", "int32": "int", "bool": "int",
+             "complex128": "complex"}[dt]
+        sc = {"float": ps.enc_scalar(2.5), "int": ps.enc_scalar(3),
+              "complex": ps.enc_scalar(complex(0.5, 1.0))}[k]
+        npsc = ps.enc_scalar(np.float64(2.5))
+        for op in ("add", "sub", "mul", "truediv", "pow"):
+            if dt == "bool" and op in ("sub", "truediv", "pow"):
+                continue
+            leaf_ops.append((op, [1, sc], dt))
+            leaf_ops.append((op, [sc, 1], dt))
+            if dt in ("float32", "int32") and op in ("mul", "add", "truediv"):
+                leaf_ops.append((op, [1, npsc], dt))
+                leaf_ops.append((op, [npsc, 1], dt))
+            leaf_ops.append((op, [1, 2], dt))          # array (op) array, same shape
+    for j, (op, args, dt) in enumerate(leaf_ops):
+        pool = "nonzero" if op in ("truediv", "pow") else "dyadic"
+        spec = {"inputs": [ph(0, [3, 4], "float64"), ph(1, [4, 2], dt, pool),
+                           ph(2, [4, 2], dt, pool)],
+                "nodes": [{"id": 3, "op": op, "args": args, "params": {}},
+                          {"id": 4, "op": "einsum", "args": [0, 3],
+                           "params": {"spec": "ij,jk->ik"}},
+                          {"id": 5, "op": "einsum", "args": [3],
+                           "params": {"spec": "jk->k"}}],
+                "outputs": {"out0": 4, "out1": 5}, "vseed": 1000 + j, "profile": "distrib"}
+        out.append({"spec": spec, "maxpol": 400, "compile": False, "directed": True})
+    return out
+
+
 def run_shard(shard: dict[str, Any], col: common.Collector) -> None:
-    for case in shard["cases"]:
+    cases = list(shard["cases"])
+    if shard.get("idx", 0) == 0:
+        cases = directed() + cases
+    for case in cases:
         try:
             with common.time_limit(300):
                 check_case(case, col)
